@@ -43,6 +43,11 @@ def app(fn, *args):
     return "(%s%s)" % (fn, "".join(" " + str(a) for a in args))
 
 
+class EarlyReturn(Exception):
+    def __init__(self, cond, val, env_else, then_returns):
+        self.cond, self.val, self.env_else, self.then_returns = cond, val, env_else, then_returns
+
+
 class TermEval:
     def __init__(self, F, inline_extra=()):
         self.F = F
@@ -76,6 +81,8 @@ class TermEval:
                 self.stmt(f.get("body"), env)
             except Returned as r:
                 return r.v
+            except EarlyReturn as er:
+                raise Unsupported("a path of %s returns a value and another one falls off the end" % f.get("name"))
             return None
         finally:
             self.depth -= 1
@@ -85,8 +92,20 @@ class TermEval:
             return
         k = n.get("k")
         if k == "CompoundStmt":
-            for c in n.get("ch") or []:
-                self.stmt(c, env)
+            stmts = n.get("ch") or []
+            for i, c in enumerate(stmts):
+                try:
+                    self.stmt(c, env)
+                except EarlyReturn as er:
+                    # `if (cond) return X;` on symbolic data: the rest of the block is the other arm
+                    env.update(er.env_else)
+                    try:
+                        for c2 in stmts[i + 1:]:
+                            self.stmt(c2, env)
+                    except Returned as r2:
+                        a, b = (er.val, r2.v) if er.then_returns else (r2.v, er.val)
+                        raise Returned(app("ite", er.cond, a, b))
+                    raise EarlyReturn(er.cond, er.val, env, er.then_returns)      # the enclosing block continues the other path
             return
         if k == "DeclStmt":
             for d in n.get("decls") or []:
@@ -122,6 +141,10 @@ class TermEval:
                     return
                 if isinstance(rt, Returned) and isinstance(re_, Returned):
                     raise Returned(app("ite", c, rt.v, re_.v))
+                if isinstance(rt, Returned) and re_ is None:
+                    raise EarlyReturn(c, rt.v, enve, True)
+                if rt is None and isinstance(re_, Returned):
+                    raise EarlyReturn(c, re_.v, envt, False)
                 if rt is None and re_ is None:
                     for d in set(envt) | set(enve):
                         a, b = envt.get(d), enve.get(d)
